@@ -59,7 +59,7 @@ ASSUMPTIONS = [
     'non-constant rates, non-unit attitudes, representation=rotmat/angles and the MARG/accelerometer-present branches '
     'are out of scope',
 ]
-REQUIRED_CLASSES = ['representations', 'dr:configured-step', 'dr:dt-types', 'dr:batch-no-q0', 'closed:chain', 'closed:batch(Dt)', 'closed:batch(frequency)', 'closed:total-angle>2pi',
+REQUIRED_CLASSES = ['varying-rates', 'representations', 'dr:configured-step', 'dr:dt-types', 'dr:batch-no-q0', 'closed:chain', 'closed:batch(Dt)', 'closed:batch(frequency)', 'closed:total-angle>2pi',
                     'closed:q0-negative-scalar', 'closed:theta>=0.1', 'closed:theta<=1e-4',
                     'series:order0', 'series:order1', 'series:order2', 'series:order3', 'series:order4', 'series:order5',
                     'series:order6', 'series:batch', 'dr:Madgwick', 'dr:Mahony', 'dr:AQUA', 'dr:EKF.f', 'dr:ROLEQ',
@@ -589,6 +589,46 @@ def job_representations(ctx):
                     if not dd <= TOL_DR:
                         ctx.fail(f'{fname}: without a per-call dt the dead-reckoning step uses the step configured as Dt= / frequency=', key, dd, 0.0, TOL_DR)
             ctx.cls('dr:configured-step')
+    # (4) records whose rate CHANGES from sample to sample, with pauses (rows that are exactly zero): closed form row by row, and the
+    #     dead-reckoning batch constructors (null accelerometer) advancing by the first-order step of THEIR OWN row's rate
+    q0v = rq.qunit(np.array([0.7, -0.2, 0.5, 0.4]))
+    w1, w2 = np.array([0.8, -0.5, 0.3]), np.array([-0.2, 0.9, 0.4])
+    Gv = np.array([w1, w1, 2.0 * w1, -w1, np.zeros(3), np.zeros(3), -0.0 * w1, w2, 0.5 * w2, w2 + w1, np.zeros(3), w1])
+    for dt in (0.01, 0.05):
+        ref = [q0v]
+        for t in range(1, len(Gv)):
+            n_ = float(np.linalg.norm(Gv[t]))
+            ref.append(ref[-1] if n_ == 0 else rq.qunit(rq.qmul(ref[-1], rq.axang2q(Gv[t] / n_, n_ * dt))))
+        ref = np.array(ref)
+        for method, kw, tol in (('closed', {}, 1e-13), ('series', {'order': 6}, 1e-11)):
+            key = f'varying rates with pauses method={method} dt={dt}'
+            ctx.evals += 1
+            try:
+                B = _arr(AngularRate(gyr=Gv.copy(), q0=q0v.copy(), Dt=dt, method=method, **kw).Q)
+                _judge_rows(ctx, _rowdist(B, ref), np.full(len(Gv), tol), 'AngularRate(gyr, q0, Dt).Q row n = row n-1 (x) axis-angle(w_n dt), rates changing per sample, pauses held', key, 'closed.varying')
+                ar_ = AngularRate(); q = q0v.copy(); rows = [q.copy()]
+                for t in range(1, len(Gv)):
+                    q = _arr(ar_.update(q.copy(), Gv[t].copy(), method=method, dt=dt, **kw)); rows.append(q)
+                _judge_rows(ctx, _rowdist(np.array(rows), ref), np.full(len(Gv), tol), 'AngularRate.update chained over changing rates and pauses', key, 'closed.varying')
+            except Exception as ex:
+                ctx.fail('AngularRate on a record with changing rates and pauses raises', key, f'{type(ex).__name__}: {ex}'[:120], 'rows')
+        Zb = np.zeros((len(Gv), 3))
+        for fname, is_conj, build in (('Madgwick', False, lambda: Madgwick(gyr=Gv.copy(), acc=Zb.copy(), q0=q0v.copy(), Dt=dt).Q), ('Mahony', False, lambda: Mahony(gyr=Gv.copy(), acc=Zb.copy(), q0=q0v.copy(), Dt=dt).Q),
+                                      ('AQUA', True, lambda: AQUA(gyr=Gv.copy(), acc=Zb.copy(), q0=conj(q0v), Dt=dt).Q)):
+            key = f'{fname} batch, null accelerometer, rates changing per sample dt={dt}'
+            ctx.evals += 1
+            try:
+                B = _arr(build())
+                if is_conj and B.shape == (len(Gv), 4):
+                    B = B * np.array([1.0, -1.0, -1.0, -1.0])
+                R_ = np.zeros((len(Gv), 4)); R_[0] = q0v
+                ok = B.shape == (len(Gv), 4) and bool(np.all(np.isfinite(B)))
+                for i in range(1, len(Gv)):
+                    R_[i] = ri.first_order(B[i - 1] if ok else R_[i - 1], Gv[i], dt)
+                _judge_rows(ctx, _rowdist(B, R_), np.full(len(Gv), TOL_DR), f'{fname}(gyr, acc=0, q0, Dt).Q row n = first-order step of row n-1 with the rate of sample n (rates changing per sample)', key, f'dr.varying.{fname}')
+            except Exception as ex:
+                ctx.fail(f'{fname} batch with changing rates raises', key, f'{type(ex).__name__}: {ex}'[:120], 'rows')
+        ctx.cls('varying-rates')
     # (3) the user loop: whatever the update returns is fed back as it is, every returned attitude is KEPT; judged after the loop
     from ahrs import Quaternion
     for w in (np.array([0.3, -0.2, 0.5]), np.array([3.0, 1.0, -2.0])):
